@@ -282,6 +282,13 @@ def request_forms(shape, sc, tc):
            ("dict-minus-one-value", {-1: -1}, tuple(sc[:-1]) + (shape[-1],))]
     if nd > 1:
         out.append(("dict-mixed-keys", {0: tc[0], -1: tc[-1]}, (tc[0],) + tuple(sc[1:-1]) + (tc[-1],)))
+    # explicit per-axis block tuples: the regular grid written out, and the same blocks in reverse order (an irregular
+    # grid whenever the last block is shorter: that request must be refused or honoured exactly, never approximated)
+    blocks = tuple(tuple(min(t, n - o) for o in range(0, n, t)) for n, t in zip(shape, tc))
+    out.append(("explicit-blocks", blocks, tc))
+    rev = tuple(b[::-1] for b in blocks)
+    if rev != blocks:
+        out.append(("explicit-blocks-reversed", rev, rev))
     return out
 
 
@@ -320,7 +327,10 @@ def forms_group(item):
                         except Exception as e:
                             text, kind = f"rechunk({req!r}) raised {type(e).__name__}: {str(e)[:100]}", "planner-crash"
                         else:
-                            exp_chunks = tuple(tuple(min(t, n - o) for o in range(0, n, t)) for n, t in zip(shape, eff))
+                            if label == "explicit-blocks-reversed":
+                                exp_chunks = tuple(tuple(b) for b in eff)
+                            else:
+                                exp_chunks = tuple(tuple(min(t, n - o) for o in range(0, n, t)) for n, t in zip(shape, eff))
                             text = kind = None
                             if tuple(y.chunks) != exp_chunks:
                                 kind, text = "wrong-chunks", f"rechunk({req!r}) of an array chunked {sc} declares chunks {y.chunks}, the request means {exp_chunks}"
